@@ -77,7 +77,9 @@ D2 == <<33, 34, 35, 36, 37, 38, 39, 40>>
 L13 == {<<"nmt", 1>>, <<"nmt", 2>>, <<"nmt", 128>>, <<"rpdo", 517, D1>>, <<"rpdo", 517, D2>>, <<"rpdo", 773, D1>>, <<"rpdo", 773, D2>>, <<"rpdo", 1029, D1>>, <<"rpdo", 518, D1>>,
         <<"sync", 128>>, <<"sync", 129>>, <<"wr", "a", <<99>>>>, <<"api", "l", <<1, 1, 1, 1>>>>,
         \* reconfiguration of the synchronous RPDO #2 while a frame may be waiting for its SYNC
-        <<"cfg", "cid", FALSE, 2, <<5, 3, 0, 128>>>>, <<"cfg", "cid", FALSE, 2, <<5, 3, 0, 0>>>>, <<"cfg", "type", FALSE, 2, 254>>, <<"cfg", "type", FALSE, 2, 1>>}
+        <<"cfg", "cid", FALSE, 2, <<5, 3, 0, 128>>>>, <<"cfg", "cid", FALSE, 2, <<5, 3, 0, 0>>>>, <<"cfg", "type", FALSE, 2, 254>>, <<"cfg", "type", FALSE, 2, 1>>,
+        \* a refused write to 1005h (generate bit with another identifier while no period is configured): the SYNC identifier the RPDOs wait for stays
+        <<"cfg", "sid", TRUE, 1, <<129, 0, 0, 64>>>>}
 P13 == << <<"rd", "a">>, <<"rd", "b">>, <<"rd", "w">>, <<"rd", "l">>, <<"sync", 128>>, <<"rd", "b">>, <<"rd", "l">>, <<"nmt", 1>>, <<"rpdo", 773, D2>>, <<"sync", 128>>, <<"sync", 128>>, <<"rd", "l">> >>
 \* ---- C09P: "PDO in OPERATIONAL only" for the synchronous RPDO, whose frame is buffered across NMT transitions: RPDO #1 synchronous, #2 asynchronous
 RC09P == << RC(FALSE, 517, 1, 1, <<M("b", 8), Z4, Z4, Z4>>), RC(FALSE, 773, 254, 1, <<M("a", 8), Z4, Z4, Z4>>) >>
